@@ -270,7 +270,11 @@ def b_reversed(I, v):
         return tuple(reversed(items))
     sv = I.seq_value(v)
     _axiom('reversed(seq)[i] = seq[len-1-i]')
+    memo = I.ghost.setdefault('@reversed', {})
+    if sv.t.key() in memo:
+        return SSeqV(memo[sv.t.key()], sv.ety)
     r = I.fresh_term('reversed', sv.t.sort, False)
+    memo[sv.t.key()] = r
     n = smt.SeqLen(sv.t)
     i = smt.fresh_bound('i', INT)
     I.assume(smt.Eq(smt.SeqLen(r), n))
@@ -290,7 +294,11 @@ def b_zip(I, *vs):
 
 def b_range(I, *a):
     if any(isinstance(x, SV) for x in a):
-        raise Unsupported('symbolic range')
+        if len(a) == 1:
+            return SymRange(smt.IntC(0), I.int_term(a[0]))
+        if len(a) == 2:
+            return SymRange(I.int_term(a[0]), I.int_term(a[1]))
+        raise Unsupported('symbolic range with step')
     return range(*a)
 
 
@@ -376,6 +384,7 @@ def b_map(I, f, v):
 
 def b_islice(I, v, a, b=None):
     start, stop = (0, a) if b is None else (a, b)
+    start, stop = I.strip_opt(start), I.strip_opt(stop)
     items = I.concrete_items(v)
     if items is not None and not isinstance(start, SV) and not isinstance(stop, SV):
         return tuple(itertools.islice(items, start, stop))
@@ -461,6 +470,7 @@ def str_method(I, s, name, args, kwargs):
         return r
     st = I.term_of(s)
     taint = s.taint if isinstance(s, SStr) else None
+    args = [I.strip_opt(a) for a in args]
     if name == 'startswith':
         (p,) = args
         if isinstance(p, tuple):
